@@ -5,6 +5,9 @@
 (*   sig  = <<ctx, <<param kinds>>, variadic>>                              *)
 (*   kinds: "string" "bool" "int" "int8" "int16" "int32" "int64" "float32"  *)
 (*          "float64" "any" "big" "time" "strs" "ints" "anys" "smap"        *)
+(*          "appctx": an interface type of the application that happens to  *)
+(*          be *named* Context - an ordinary declared parameter, not the    *)
+(*          leading context.Context (that one is sig[1])                    *)
 (*   CallOutcome(sig, args, spread) =                                       *)
 (*      <<"called", <<received arguments>>>>  (<<"ANY">> = value not pinned)*)
 (*    | <<"notcalled">>   evaluation fails with an error, no invocation     *)
@@ -58,6 +61,7 @@ Conv1(kind, v) ==
                   r == ConvList(ek, v[2], 1, <<>>)
               IN IF r[1] # "ok" THEN r
                  ELSE <<"ok", CASE kind = "strs" -> <<"arr", r[2], "strs">> [] kind = "ints" -> <<"arr", r[2], "[]int">> [] kind = "i32s" -> <<"arr", r[2], "[]int32">> [] OTHER -> <<"arr", r[2]>>>>
+    [] kind = "appctx" -> IF v[1] = "null" THEN <<"ok", Null>> ELSE <<"u">>      \* null is the nil interface; what else fits is not pinned
     [] kind = "smap" -> IF v[1] = "map" THEN <<"ok", <<"ANY">>>> ELSE IF v[1] = "null" THEN <<"u">> ELSE <<"u">>
 ConvList(ek, l, i, acc) ==
   IF i > Len(l) THEN <<"ok", acc>>
